@@ -22,7 +22,7 @@ Your task: make a small change to the library's source under {wt}/src (not to it
      (on the unchanged tree 150 tests pass and exactly two fail: `ogre_std::ogre_queues::full_sync::non_blocking_queue::tests::peek_test` and the doctest `src/lib.rs - (line 33)`; these two always fail and are to be ignored. `multi::tests::undegradable_latencies` is timing sensitive: if it fails, re-run it alone.)
   2. the property above is violated by the changed code, but ONLY under something specific: a particular interleaving of threads, a particular multi-step sequence of operations, an unusual input or counter value (e.g. sequence counters near 2^32), a particular state (buffer exactly full / exactly empty / particular number of streams), or two cooperating sites that each look fine alone. Ordinary use (what the existing tests do) must NOT expose it. Think of the kind of mistake a maintainer could make in a refactoring or "optimisation" and that code review would miss.
   3. you provide a DEMONSTRATION: a self-contained Rust test file placed at {wt}/tests/seeded_demo.rs (an integration test using only the crate's public API; it may use std threads, loops with many iterations, or carefully sequenced calls) that FAILS (panics / assertion fails / hangs detected by a timeout inside the test) with your change and PASSES on the unchanged code. Run it with:  cd {wt} && cargo test --offline --test seeded_demo
-     Verify both directions yourself (use `git stash` / `git stash pop` on the src change, keeping the demo file). If the defect needs a rare interleaving, the demo may retry many times, but it should fail reliably (say 9 of 10 runs) within about a minute.
+     Verify both directions yourself (save your change with `git diff -- src > /tmp/<your-worktree-name>.patch`, revert with `git checkout -- src`, re-apply with `git apply`; do NOT use `git stash`: the stash is shared with sibling worktrees used by others). If the defect needs a rare interleaving, the demo may retry many times, but it should fail reliably (say 9 of 10 runs) within about a minute.
 {variant}
 Constraints: keep the change small (a few lines, one or two sites). Do not add new public API. Do not change tests, Cargo.toml or anything outside src/ except adding tests/seeded_demo.rs. There is a cargo feature `verif` in the crate (hooks for verification: `#[cfg(feature = "verif")]` lines, src/verif.rs): leave those lines alone and do not use them; your change must affect the normal (feature-off) build and must also compile with `--features verif`.
 
